@@ -477,8 +477,20 @@ def run_ops(case, obs):
     snap = (f.array.copy(), f.valid.copy(), list(f.vdims) if f.vdims else None, dict(f.vdim_mapping))
     obs["field"] = fieldio.field_json(f)
     obs["tol"] = 2.0 ** -30 * noise(f)
+    obs["rot_tol"] = 2.0 ** -40 * (float(np.max(np.abs(f.array))) + 1e-300)
     res = {op: attempt(lambda: getattr(f, op)) for op in OPS}
     obs["res"] = res
+    dims_ = list(f.mesh.region.dims)
+    # one quarter turn of the operand itself, tied to the model's rot90Fld (incl. refusals: same axis twice, unknown axis)
+    r = rng.random()
+    if len(dims_) >= 2 and r < 0.9:
+        ra, rb = rng.sample(dims_, 2)
+    elif r < 0.95:
+        ra = rb = dims_[0]
+    else:
+        ra, rb = dims_[0], "nodim"
+    obs["rot_axes"] = [ra, rb]
+    obs["rot"] = attempt(lambda: f.rotate90(ra, rb))
     check_refusals(f, res, fail)
     exact_applies = check_exactness(case, f, res, scale, fail)
     check_identities(case, f, res, scale, fail)
@@ -652,7 +664,8 @@ def model_requests(case, obs):
     if "field" not in obs and case["kind"] == "ops":
         return []
     if case["kind"] == "ops":
-        return [dict(op=op, field=obs["field"]) for op in OPS]
+        return [dict(op=op, field=obs["field"]) for op in OPS] + \
+               [dict(op="rot90", field=obs["field"], a=obs["rot_axes"][0], b=obs["rot_axes"][1])]
     if case["kind"] == "meta":
         if "mk" not in obs:
             return []
@@ -686,7 +699,7 @@ def cmp_meta(name, impl, r, dis):
         dis.append(f"{name}: vdim_mapping impl {impl['vmap']} vs model {m['vmap']}")
 
 
-def cmp_res(name, impl, r, dis, exact=True, tol=0.0):
+def cmp_res(name, impl, r, dis, exact=True, tol=0.0, geometry=False):
     if is_err(impl):
         if "err" not in r:
             dis.append(f"{name}: impl refused ({impl[1]}), model accepted")
@@ -698,6 +711,20 @@ def cmp_res(name, impl, r, dis, exact=True, tol=0.0):
         # tolerance regime: metadata and validity exactly, values within the stated absolute bound
         mj = r["ok"]
         got = fieldio.field_json(impl)
+        if geometry:
+            for key in ("pmin", "pmax"):
+                a, b = got["mesh"]["region"][key], mj["mesh"]["region"][key]
+                ext = max([abs(F(y)) for y in b] + [Fraction(1)])
+                if len(a) != len(b) or any(abs(F(x) - F(y)) > Fraction(2) ** -40 * ext for x, y in zip(a, b)):
+                    dis.append(f"{name}: region {key} impl {a} vs model {b}")
+                    return
+            for key in ("dims", "units"):
+                if got["mesh"]["region"][key] != mj["mesh"]["region"][key]:
+                    dis.append(f"{name}: region {key} impl {got['mesh']['region'][key]} vs model {mj['mesh']['region'][key]}")
+                    return
+            if got["mesh"]["bc"] != mj["mesh"]["bc"]:
+                dis.append(f"{name}: bc impl {got['mesh']['bc']!r} vs model {mj['mesh']['bc']!r}")
+                return
         for key, a, b in (("n", got["mesh"]["n"], mj["mesh"]["n"]), ("nvdim", got["nvdim"], mj["nvdim"]),
                           ("vdims", got["vdims"], mj["vdims"]), ("unit", got["unit"], mj["unit"]),
                           ("valid", got["valid"], mj["valid"]),
@@ -719,6 +746,10 @@ def compare(case, obs, rs):
     if case["kind"] == "ops":
         for op, r in zip(OPS, rs):
             cmp_res(f"Field.{op}", obs["res"][op], r, dis, exact=case["exact"], tol=obs.get("tol", 0.0))
+        # rotate90: scalars are moved (exact); vectors are multiplied by cos/sin(pi/2) in binary64 (6e-17 instead of 0)
+        fs = case["field"]
+        cmp_res(f"Field.rotate90({obs['rot_axes'][0]},{obs['rot_axes'][1]})", obs["rot"], rs[len(OPS)], dis,
+                exact=(case["exact"] and fs["nvdim"] == 1), tol=obs.get("rot_tol", 0.0), geometry=True)
     elif case["kind"] == "meta":
         cmp_meta("Field(...) labels/mapping", obs["mk_res"], rs[0], dis)
         pos = 1
